@@ -104,7 +104,7 @@ func (m *RWMutex) RLock() {
 		return
 	}
 	if s.Cfg.LockYieldPermille > 0 {
-		Yield("rlock")
+		Yield("lock")
 	}
 	if m.mu.TryRLock() {
 		m.readers.Add(1)
